@@ -1,55 +1,129 @@
 import P2sh.Core.Correct
 /-!
-# Core programs: global `let` and expression statements
+# Core programs: global `let`, expression statements, blocks and `while` loops
 
 `compileP_correct`: a sequence of statements runs from any stack back to **the same stack**
-(C07: statements are balanced) with the globals the reference evaluation gives (C02).
+(C07: statements are balanced, loops run in constant stack) with the globals the reference
+evaluation gives (C02, C05).  The reference evaluation takes a fuel argument that bounds the
+depth of the evaluation (loop iterations included); the theorem holds for every fuel, i.e.
+for every terminating run of every program of the fragment.
 -/
 namespace P2sh.Core
 open P2sh
 
 inductive CStmt where
-  | letG (i : Nat) (e : CExpr)      -- `let x = e;` at top level: DefineGlobal i
-  | expr (e : CExpr)                -- `e;` : the value is popped
+  | letG (i : Nat) (e : CExpr)                  -- `let x = e;` at top level: DefineGlobal i
+  | expr (e : CExpr)                            -- `e;` : the value is popped
+  | block (body : List CStmt)                   -- `{ … }`
+  | whileS (c : CExpr) (body : List CStmt)      -- `while c { … }` (no break/continue inside)
 deriving Repr
 
-def CStmt.e : CStmt → CExpr
-  | .letG _ e => e
-  | .expr e => e
-
-/-- reference evaluation of a statement list: the globals afterwards (`none`: runtime error) -/
-def evalP (g : List Val) : List CStmt → Option (List Val)
-  | [] => some g
-  | .letG i e :: rest =>
+mutual
+/-- reference evaluation of a statement: the globals afterwards (`none`: runtime error, or
+the fuel does not suffice) -/
+def evalS : Nat → List Val → CStmt → Option (List Val)
+  | 0, _, _ => none
+  | fuel+1, g, .letG i e =>
     (match eval g e with
-     | some (v, g1) => if i < g1.length then evalP (g1.set i v) rest else none
+     | some (v, g1) => if i < g1.length then some (g1.set i v) else none
      | none => none)
-  | .expr e :: rest =>
+  | _+1, g, .expr e =>
     (match eval g e with
-     | some (_, g1) => evalP g1 rest
+     | some (_, g1) => some g1
      | none => none)
+  | fuel+1, g, .block body => evalP fuel g body
+  | fuel+1, g, .whileS c body =>
+    (match eval g c with
+     | some (vc, g1) =>
+       if vc.isFalsey then some g1
+       else (match evalP fuel g1 body with
+         | some g2 => evalS fuel g2 (.whileS c body)
+         | none => none)
+     | none => none)
+def evalP : Nat → List Val → List CStmt → Option (List Val)
+  | 0, _, _ => none
+  | _+1, g, [] => some g
+  | fuel+1, g, s :: rest =>
+    (match evalS fuel g s with
+     | some g1 => evalP fuel g1 rest
+     | none => none)
+end
 
-/-- statements compile to the expression's code followed by `DefineGlobal i` / `Pop` -/
+mutual
+/-- constants a statement adds to the pool, in emission order -/
+def constsS : CStmt → List Val
+  | .letG _ e => consts e
+  | .expr e => consts e
+  | .block body => constsP body
+  | .whileS c body => consts c ++ constsP body
+def constsP : List CStmt → List Val
+  | [] => []
+  | s :: rest => constsS s ++ constsP rest
+end
+
+mutual
+/-- what `compile_statement` emits at byte position `pos` with `k` constants in the pool -/
 def compileS (pos k : Nat) : CStmt → List Instr
   | .letG i e => compile pos k e ++ [.defGlobal i]
   | .expr e => compile pos k e ++ [.pop]
-
-def constsP : List CStmt → List Val
-  | [] => []
-  | s :: rest => consts s.e ++ constsP rest
-
+  | .block body => compileP pos k body
+  | .whileS c body =>
+    -- begin: c; JumpIfFalse end; body; Jump begin; end:
+    let cc := compile pos k c
+    let pb := pos + bytes cc + 3
+    let cb := compileP pb (k + (consts c).length) body
+    cc ++ [.jif (pb + bytes cb + 3)] ++ cb ++ [.jump pos]
 def compileP (pos k : Nat) : List CStmt → List Instr
   | [] => []
   | s :: rest =>
     let cs := compileS pos k s
-    cs ++ compileP (pos + bytes cs) (k + (consts s.e).length) rest
+    cs ++ compileP (pos + bytes cs) (k + (constsS s).length) rest
+end
 
-theorem compileS_correct (s : CStmt) (C : List Instr) (K : List Val) (pos k : Nat) (stk g g' : List Val)
-    (h : codeAt C pos (compileS pos k s)) (hp : poolAt K k (consts s.e)) (he : evalP g [s] = some g') :
-    Steps C K ⟨pos, stk, g⟩ ⟨pos + bytes (compileS pos k s), stk, g'⟩ := by
+/-- the statement of correctness for one statement / a statement list -/
+def SoundS (fuel : Nat) : Prop :=
+  ∀ (s : CStmt) (C : List Instr) (K : List Val) (pos k : Nat) (stk g g' : List Val),
+    codeAt C pos (compileS pos k s) → poolAt K k (constsS s) → evalS fuel g s = some g' →
+    Steps C K ⟨pos, stk, g⟩ ⟨pos + bytes (compileS pos k s), stk, g'⟩
+
+def SoundP (fuel : Nat) : Prop :=
+  ∀ (ss : List CStmt) (C : List Instr) (K : List Val) (pos k : Nat) (stk g g' : List Val),
+    codeAt C pos (compileP pos k ss) → poolAt K k (constsP ss) → evalP fuel g ss = some g' →
+    Steps C K ⟨pos, stk, g⟩ ⟨pos + bytes (compileP pos k ss), stk, g'⟩
+
+
+theorem sound_zero : SoundS 0 ∧ SoundP 0 := by
+  constructor
+  · intro s C K pos k stk g g' _ _ he; simp [evalS] at he
+  · intro ss C K pos k stk g g' _ _ he; simp [evalP] at he
+
+theorem soundP_succ (fuel : Nat) (hS : SoundS fuel) (hP : SoundP fuel) : SoundP (fuel + 1) := by
+  intro ss C K pos k stk g g' h hp he
+  cases ss with
+  | nil =>
+    simp only [evalP, Option.some.injEq] at he
+    subst he
+    exact (Steps.refl _).to (by simp [compileP, bytes])
+  | cons s rest =>
+    simp only [evalP] at he
+    cases h1 : evalS fuel g s with
+    | none => simp [h1] at he
+    | some g1 =>
+      simp only [h1] at he
+      simp only [compileP] at h ⊢
+      simp only [constsP] at hp
+      generalize hcs : compileS pos k s = cs at *
+      have hs := hS s C K pos k stk g g1 (hcs ▸ codeAt_left h) (poolAt_left hp) h1
+      rw [hcs] at hs
+      have hr := hP rest C K (pos + bytes cs) (k + (constsS s).length) stk g1 g' (codeAt_right h) (poolAt_right hp) he
+      exact (hs.trans hr).to (by simp [bytes_append]; omega)
+
+theorem soundS_succ (fuel : Nat) (hS : SoundS fuel) (hP : SoundP fuel) : SoundS (fuel + 1) := by
+  intro s C K pos k stk g g' h hp he
   cases s with
   | letG i e =>
-    simp only [evalP] at he
+    simp only [evalS] at he
+    simp only [constsS] at hp
     cases hee : eval g e with
     | none => simp [hee] at he
     | some r =>
@@ -67,7 +141,8 @@ theorem compileS_correct (s : CStmt) (C : List Instr) (K : List Val) (pos k : Na
           (by simp [bytes_append, bytes, Instr.size]; omega)
       · simp [hi] at he
   | expr e =>
-    simp only [evalP] at he
+    simp only [evalS] at he
+    simp only [constsS] at hp
     cases hee : eval g e with
     | none => simp [hee] at he
     | some r =>
@@ -80,57 +155,82 @@ theorem compileS_correct (s : CStmt) (C : List Instr) (K : List Val) (pos k : Na
       rw [hce] at h1
       have hpop : codeAt C (pos + bytes ce) [Instr.pop] := codeAt_mid ce [_] [] (by simpa using h)
       exact (h1.trans (Steps.one (step_pop hpop))).to (by simp [bytes_append, bytes, Instr.size]; omega)
+  | block body =>
+    simp only [evalS] at he
+    simp only [constsS] at hp
+    simp only [compileS] at h ⊢
+    exact hP body C K pos k stk g g' h hp he
+  | whileS c body =>
+    simp only [evalS] at he
+    simp only [constsS] at hp
+    cases hec : eval g c with
+    | none => simp [hec] at he
+    | some rc =>
+      obtain ⟨vc, g1⟩ := rc
+      simp only [hec] at he
+      -- keep the whole loop's placement for the next iteration
+      have hloop := h
+      simp only [compileS] at h ⊢
+      generalize hcc : compile pos k c = cc at *
+      generalize hcb : compileP (pos + bytes cc + 3) (k + (consts c).length) body = cb at *
+      have hc := compile_correct c C K pos k stk g vc g1 (hcc ▸ codeAt_mid [] cc _ (by simpa using h)) (poolAt_left hp) hec
+      rw [hcc] at hc
+      have hj : codeAt C (pos + bytes cc) [Instr.jif (pos + bytes cc + 3 + bytes cb + 3)] :=
+        codeAt_mid cc [_] (cb ++ [.jump pos]) (by simpa using h)
+      have hbody : codeAt C (pos + bytes cc + 3) cb := by
+        have := codeAt_mid (cc ++ [.jif (pos + bytes cc + 3 + bytes cb + 3)]) cb [.jump pos] (by simpa using h)
+        simpa [bytes_append, bytes, Instr.size, Nat.add_assoc] using this
+      have hback : codeAt C (pos + bytes cc + 3 + bytes cb) [Instr.jump pos] := by
+        have := codeAt_mid (cc ++ [.jif (pos + bytes cc + 3 + bytes cb + 3)] ++ cb) [_] [] (by simpa using h)
+        simpa [bytes_append, bytes, Instr.size, Nat.add_assoc] using this
+      refine hc.trans ((Steps.one (step_jif hj)).trans ?_)
+      by_cases hf : vc.isFalsey = true
+      · simp only [hf, if_true, Option.some.injEq] at he ⊢
+        subst he
+        exact (Steps.refl _).to (by simp [bytes_append, bytes, Instr.size]; omega)
+      · simp only [hf, Bool.false_eq_true, if_false] at he ⊢
+        cases hb : evalP fuel g1 body with
+        | none => simp [hb] at he
+        | some g2 =>
+          simp only [hb] at he
+          have h1 := hP body C K (pos + bytes cc + 3) _ stk g1 g2 (hcb ▸ hbody) (poolAt_right hp) hb
+          rw [hcb] at h1
+          have h2 := hS (.whileS c body) C K pos k stk g2 g' hloop (by simpa [constsS] using hp) he
+          simp only [compileS, hcc, hcb] at h2
+          exact h1.trans ((Steps.one (step_jump hback)).trans h2)
 
-theorem evalP_cons (g : List Val) (s : CStmt) (rest : List CStmt) (g' : List Val)
-    (h : evalP g (s :: rest) = some g') : ∃ g1, evalP g [s] = some g1 ∧ evalP g1 rest = some g' := by
-  cases s with
-  | letG i e =>
-    simp only [evalP] at h ⊢
-    cases hee : eval g e with
-    | none => simp [hee] at h
-    | some r =>
-      obtain ⟨v, g1⟩ := r
-      simp only [hee] at h ⊢
-      by_cases hi : i < g1.length
-      · simp only [hi, if_true] at h ⊢
-        exact ⟨_, rfl, h⟩
-      · simp [hi] at h
-  | expr e =>
-    simp only [evalP] at h ⊢
-    cases hee : eval g e with
-    | none => simp [hee] at h
-    | some r =>
-      obtain ⟨v, g1⟩ := r
-      simp only [hee] at h ⊢
-      exact ⟨_, rfl, h⟩
+theorem sound_all : ∀ fuel, SoundS fuel ∧ SoundP fuel
+  | 0 => sound_zero
+  | fuel+1 =>
+    have ih := sound_all fuel
+    ⟨soundS_succ fuel ih.1 ih.2, soundP_succ fuel ih.1 ih.2⟩
+
+/-- **statements**: the code of every statement — `let`, expression statement, block, `while`
+loop — runs from any stack back to the same stack, for every terminating run -/
+theorem compileS_correct (fuel : Nat) (s : CStmt) (C : List Instr) (K : List Val) (pos k : Nat) (stk g g' : List Val)
+    (h : codeAt C pos (compileS pos k s)) (hp : poolAt K k (constsS s)) (he : evalS fuel g s = some g') :
+    Steps C K ⟨pos, stk, g⟩ ⟨pos + bytes (compileS pos k s), stk, g'⟩ :=
+  (sound_all fuel).1 s C K pos k stk g g' h hp he
 
 /-- **programs**: every statement sequence runs from a stack back to the same stack -/
-theorem compileP_correct : ∀ (ss : List CStmt) (C : List Instr) (K : List Val) (pos k : Nat) (stk g g' : List Val),
-    codeAt C pos (compileP pos k ss) → poolAt K k (constsP ss) → evalP g ss = some g' →
-    Steps C K ⟨pos, stk, g⟩ ⟨pos + bytes (compileP pos k ss), stk, g'⟩ := by
-  intro ss
-  induction ss with
-  | nil =>
-    intro C K pos k stk g g' _ _ he
-    simp only [evalP, Option.some.injEq] at he
-    subst he
-    exact (Steps.refl _).to (by simp [compileP, bytes])
-  | cons s rest ih =>
-    intro C K pos k stk g g' h hp he
-    obtain ⟨g1, h1, h2⟩ := evalP_cons g s rest g' he
-    simp only [compileP] at h ⊢
-    simp only [constsP] at hp
-    generalize hcs : compileS pos k s = cs at *
-    have hs := compileS_correct s C K pos k stk g g1 (hcs ▸ codeAt_left h) (poolAt_left hp) h1
-    rw [hcs] at hs
-    have hr := ih C K (pos + bytes cs) (k + (consts s.e).length) stk g1 g' (codeAt_right h) (poolAt_right hp) h2
-    exact (hs.trans hr).to (by simp [bytes_append]; omega)
+theorem compileP_correct (fuel : Nat) (ss : List CStmt) (C : List Instr) (K : List Val) (pos k : Nat) (stk g g' : List Val)
+    (h : codeAt C pos (compileP pos k ss)) (hp : poolAt K k (constsP ss)) (he : evalP fuel g ss = some g') :
+    Steps C K ⟨pos, stk, g⟩ ⟨pos + bytes (compileP pos k ss), stk, g'⟩ :=
+  (sound_all fuel).2 ss C K pos k stk g g' h hp he
 
 /-- whole program: code = the program, pool = its constants, empty stack -/
-theorem program_correct (ss : List CStmt) (g g' : List Val) (he : evalP g ss = some g') :
+theorem program_correct (fuel : Nat) (ss : List CStmt) (g g' : List Val) (he : evalP fuel g ss = some g') :
     Steps (compileP 0 0 ss) (constsP ss) ⟨0, [], g⟩ ⟨bytes (compileP 0 0 ss), [], g'⟩ := by
-  have := compileP_correct ss (compileP 0 0 ss) (constsP ss) 0 0 [] g g'
+  have := compileP_correct fuel ss (compileP 0 0 ss) (constsP ss) 0 0 [] g g'
     ⟨[], [], by simp, rfl⟩ ⟨[], [], by simp, rfl⟩ he
   simpa using this
+
+/-- a loop runs in constant stack: however many iterations the evaluation takes, the machine
+is back at the loop's entry stack when the loop is left -/
+theorem while_constant_stack (fuel : Nat) (c : CExpr) (body : List CStmt) (C : List Instr) (K : List Val) (pos k : Nat)
+    (stk g g' : List Val) (h : codeAt C pos (compileS pos k (.whileS c body))) (hp : poolAt K k (constsS (.whileS c body)))
+    (he : evalS fuel g (.whileS c body) = some g') :
+    ∃ st', Steps C K ⟨pos, stk, g⟩ st' ∧ st'.stk = stk ∧ st'.g = g' :=
+  ⟨_, compileS_correct fuel _ C K pos k stk g g' h hp he, rfl, rfl⟩
 
 end P2sh.Core
